@@ -86,6 +86,10 @@ func (e *Engine) vapi(g *Goroutine, name string, args []Value, fn *ssa.Function)
 	case "Assume":
 		e.Assume(args[0].(*term.T))
 		return nil, true
+	case "And":
+		return e.tb.And(args[0].(*term.T), args[1].(*term.T)), true
+	case "Or":
+		return e.tb.Or(args[0].(*term.T), args[1].(*term.T)), true
 	case "Check":
 		label := e.mustGoString(args[1], "check label")
 		site := label
@@ -219,8 +223,22 @@ func (e *Engine) formatValue(g *Goroutine, v Value, t types.Type, verb byte) []*
 			}
 			return e.constBytes("<bool>")
 		}
+		if !x.IsConst() && x.W > 0 {
+			// a value fully determined by the path condition is rendered as its decimal
+			v := e.modelValue(x)
+			if e.Implied(e.tb.Eq(x, e.tb.Const(x.W, v))) {
+				x = e.tb.Const(x.W, v)
+			}
+		}
 		if !x.IsConst() {
-			return e.constBytes("<sym>")
+			// injective opaque rendering: equal strings <=> equal values (content is not decimal)
+			e.stub("fmt:%d of symbolic integer rendered opaquely (injective)")
+			v := e.tb.Resize(x, 64, isSigned(t))
+			out := e.constBytes("{")
+			for i := 7; i >= 0; i-- {
+				out = append(out, e.tb.Extract(v, i*8+7, i*8))
+			}
+			return append(out, e.constBytes("}")...)
 		}
 		if isFloat(t) {
 			return e.constBytes(strconv.FormatFloat(toFloat(x), 'g', -1, x.W))
@@ -445,6 +463,12 @@ func init() {
 		"math.Float32frombits": func(e *Engine, g *Goroutine, a []Value, fn *ssa.Function, c *ssa.Call) (Value, bool) { return a[0], true },
 		"math.Float64bits":     func(e *Engine, g *Goroutine, a []Value, fn *ssa.Function, c *ssa.Call) (Value, bool) { return a[0], true },
 		"math.Float64frombits": func(e *Engine, g *Goroutine, a []Value, fn *ssa.Function, c *ssa.Call) (Value, bool) { return a[0], true },
+	}
+	intrinsics["(*flag.FlagSet).failf"] = func(e *Engine, g *Goroutine, a []Value, fn *ssa.Function, c *ssa.Call) (Value, bool) {
+		return e.mkError("flag: parse error"), true
+	}
+	intrinsics["(*flag.FlagSet).usage"] = func(e *Engine, g *Goroutine, a []Value, fn *ssa.Function, c *ssa.Call) (Value, bool) {
+		return nil, true
 	}
 	registerSyncIntrinsics()
 	registerTimeIntrinsics()
